@@ -1888,6 +1888,22 @@ fn shape_strategy() -> impl Strategy<Value = Shape> {
         })
 }
 
+/// Shapes for the swept sub-check of the quick tier: the hiding-MMCS family and Merkle caps above
+/// the root are as likely as everything else together (a cap that spans a whole folded codeword
+/// leaves openings without a Merkle path; salts and opened rows must still be bound).
+fn swept_strategy() -> impl Strategy<Value = Case> {
+    (shape_strategy(), any::<bool>(), 0u8..3, 0u8..3, any::<u64>(), any::<u64>()).prop_map(|(mut shape, hiding, cap, blow, seed_a, seed_b)| {
+        if hiding {
+            shape.family = 6;
+        }
+        shape.fri.cap_height = cap;
+        if cap > 0 {
+            shape.fri.log_blowup = blow;
+        }
+        Case { shape, seed_a, seed_b, picks: vec![], all: true }
+    })
+}
+
 fn pick_strategy() -> impl Strategy<Value = Pick> {
     (0u8..10, any::<u16>(), any::<u32>(), prop::bool::weighted(0.2)).prop_map(|(vec, pos, delta, ext)| Pick { vec, pos, delta, ext })
 }
@@ -1920,6 +1936,11 @@ pub fn run(ctx: &Ctx) {
         ctx.explore("positions", RULE, cases, || strategy(0, true), oracle);
     } else {
         ctx.explore("positions", RULE, cases, || strategy(400, false), oracle);
+    }
+    if !thorough {
+        // a small number of shapes with EVERY position perturbed (the thorough tier does that
+        // for all its shapes)
+        ctx.explore("positions-swept", RULE, 48, swept_strategy, oracle);
     }
     ctx.replay_known("positions", oracle);
     let us = |a: &AtomicU64| a.load(Ordering::Relaxed) as f64 / 1e6;
